@@ -1,63 +1,261 @@
-//! K2: contract of insert / push (C01, C03, C05).
+//! K2: contracts of insert / push for every value source (C01, C03, C04, C05, C06, C09).
 use core::any::TypeId;
 use core::mem::{size_of, MaybeUninit};
 use core::ptr::NonNull;
 use crate::AnyVec;
-use crate::any_value::{AnyValueRaw, AnyValueWrapper};
-use crate::traits::None;
+use crate::any_value::{AnyValue, AnyValueCloneable, AnyValueRaw, AnyValueWrapper};
+use crate::traits::{Cloneable, None};
 use super::ghost::*;
 use super::post;
 use super::types::*;
 use super::util::*;
 
-const NORELOC: bool = false;
-/// erased insert, value offered as `AnyValueRaw` (type statically unknown)
-fn insert_raw<T: 'static>(drop: bool) {
-    ghost_init();
-    let (len, cap) = sym_state();
-    if NORELOC { kani::assume(len < cap); }
-    let mut v = unsafe { mk_vec::<dyn None, T>(0, len, cap, false, drop) };
-    reg(&v, 0);
-    let esz = size_of::<T>();
-    let w = if len > 0 { witness_slot(TW, 0, len) } else { 0 };
-    watch_uninit(0, len, cap);
-    tok_init(TV, esz);
-    let mut ext = MaybeUninit::<T>::uninit();
-    let p = ext.as_mut_ptr() as *mut u8;
-    g().ext_src_on = true;
-    g().ext_src = p as *const u8;
-    let index = any_narrow();
-    kani::assume(index <= len);
-    let val = unsafe { AnyValueRaw::new(NonNull::new_unchecked(p), esz, TypeId::of::<T>()) };
+pub const SRC_RAW: usize = 0; // AnyValueRaw: statically unknown type, caller buffer
+pub const SRC_WRAPPER: usize = 1; // AnyValueWrapper<T> through the erased API (type statically known)
+pub const SRC_TYPED: usize = 2; // AnyVecTyped::insert / push
 
-    v.insert(index, val);
-
-    let len2 = v.len();
-    kani::assert(len2 == post::insert_len(len), "insert: len' == len + 1");
-    kani::assert(len2 <= v.capacity(), "insert: len' <= capacity'");
-    kani::assert(g().in_count == 1, "insert: exactly one value written");
-    kani::assert(g().total_destroyed == 0 && g().out_count == 0 && g().n_clone_calls == 0,
-        "insert: nothing destroyed, moved out or cloned");
+/// post-condition shared by every insert/push harness on vector 0
+fn post_insert(len: usize, index: usize, w: usize, esz: usize, len2: usize, cap2: usize) {
+    kani::assert(len2 == post::insert_len(len), "insert/push: len' == len + 1");
+    kani::assert(len2 <= cap2, "insert/push: len' <= capacity'");
     if esz != 0 {
         if len > 0 {
             let pos = post::insert_old_pos(len, index, w);
             let (n, p, a, d, o) = obs(TW, 0, len2, pos);
             kani::assert(
                 post::fate_ok(post::insert_old_kind(len, index, w), pos, n, p, a, d, o),
-                "insert: old element w is visible exactly once, at w (w < index) or w+1",
+                "insert/push: old element w is visible exactly once, at w (w < index) or w+1, alive",
             );
         }
         let pos = post::insert_new_pos(len, index);
         let (n, p, a, d, o) = obs(TV, 0, len2, pos);
-        kani::assert(post::fate_ok(0, pos, n, p, a, d, o),
-            "insert: the new value is visible exactly once, at index");
+        kani::assert(post::fate_ok(0, pos, n, p, a, d, o), "insert/push: the new value is visible exactly once, at index");
     }
-    kani::cover!(index < len && len == cap, "COV insert in front at full capacity");
+}
+
+/// insert (push when `push`) of a value the caller owns
+fn insert_owned<T: 'static>(src: usize, push: bool, drop: bool, fixed: bool, mk: fn() -> T) {
+    ghost_init();
+    let (len, cap) = sym_state();
+    if fixed {
+        kani::assume(len < cap);
+    }
+    let mut v = unsafe { mk_vec::<dyn None, T>(0, len, cap, fixed, drop) };
+    reg(&v, 0);
+    let esz = size_of::<T>();
+    let w = if len > 0 { witness_slot(TW, 0, len) } else { 0 };
+    watch_uninit(0, len, cap);
+    tok_init(TV, esz);
+    let index = if push { len } else { let i = any_narrow(); kani::assume(i <= len); i };
+
+    if src == SRC_RAW {
+        let mut ext = MaybeUninit::<T>::uninit();
+        let p = ext.as_mut_ptr() as *mut u8;
+        g().ext_src_on = true;
+        g().ext_src = p as *const u8;
+        let val = unsafe { AnyValueRaw::new(NonNull::new_unchecked(p), esz, TypeId::of::<T>()) };
+        if push { v.push(val) } else { v.insert(index, val) }
+    } else if src == SRC_WRAPPER {
+        let val = AnyValueWrapper::new(mk());
+        if push { v.push(val) } else { v.insert(index, val) }
+    } else {
+        let mut tv = v.downcast_mut::<T>().unwrap();
+        if push { tv.push(mk()) } else { tv.insert(index, mk()) }
+    }
+
+    post_insert(len, index, w, esz, v.len(), v.capacity());
+    kani::assert(g().in_count == if esz == 0 { 0 } else { 1 }, "insert/push: exactly one value written");
+    kani::assert(g().total_destroyed == 0 && g().ext_destroyed == 0 && g().out_count == 0 && g().n_clone_calls == 0,
+        "insert/push: nothing destroyed, moved out or cloned");
+    if fixed || len < cap {
+        kani::assert(g().v[0].cap_changes == 0 && v.capacity() == cap, "insert/push: capacity untouched while the result fits");
+    } else {
+        kani::assert(g().v[0].cap_changes == 1 && g().v[0].last_expand == 1, "insert/push: at full capacity grows once, by a request of one");
+    }
+    kani::cover!(index < len && len == cap, "COV in front at full capacity");
+    kani::cover!(index == 0 && len > 1 && len < cap, "COV in front of several");
     kani::cover!(true, "REACHED");
     core::mem::forget(v);
 }
 
-h!(insert_raw_e12, insert_raw::<E12>(true));
-h!(insert_raw_e3, insert_raw::<E3>(false));
-h!(insert_raw_e8, insert_raw::<E8>(true));
-h!(insert_raw_e1, insert_raw::<E1>(true));
+/// insert/push of a removal handle of *another* vector (value moves between vectors, no caller buffer)
+fn insert_from_other<T: 'static>(push: bool, op: usize) {
+    ghost_init();
+    let (len, cap) = sym_state();
+    let mut v = unsafe { mk_vec::<dyn None, T>(0, len, cap, false, true) };
+    reg(&v, 0);
+    let (len_b, cap_b) = sym_state();
+    kani::assume(len_b >= 1);
+    let mut other = unsafe { mk_vec::<dyn None, T>(1, len_b, cap_b, false, true) };
+    reg(&other, 1);
+    let esz = size_of::<T>();
+    let w = if len > 0 { witness_slot(TW, 0, len) } else { 0 };
+    // the witness of `other` rides in token TC: a symbolic slot of the source vector
+    let wb = witness_slot(TC, 1, len_b);
+    tok_init(TV, esz);
+    let index = if push { len } else { let i = any_narrow(); kani::assume(i <= len); i };
+    let j = if op == super::k2_remove::OP_POP { len_b - 1 } else { let j = any_narrow(); kani::assume(j < len_b); j };
+
+    if op == super::k2_remove::OP_REMOVE {
+        let h = other.remove(j);
+        if push { v.push(h) } else { v.insert(index, h) }
+    } else if op == super::k2_remove::OP_SWAP_REMOVE {
+        let h = other.swap_remove(j);
+        if push { v.push(h) } else { v.insert(index, h) }
+    } else {
+        let h = other.pop().unwrap();
+        if push { v.push(h) } else { v.insert(index, h) }
+    }
+
+    let len2 = v.len();
+    let lenb2 = other.len();
+    kani::assert(len2 == post::insert_len(len) && len2 <= v.capacity(), "move between vectors: target len' == len + 1 <= capacity'");
+    kani::assert(lenb2 == post::remove_len(len_b), "move between vectors: source len' == len - 1");
+    kani::assert(g().total_destroyed == 0 && g().out_count == 0 && g().in_count == 0 && g().n_clone_calls == 0,
+        "move between vectors: nothing destroyed, cloned or copied through a caller buffer");
+    if esz != 0 {
+        if len > 0 {
+            let pos = post::insert_old_pos(len, index, w);
+            let (n, p, a, d, o) = obs(TW, 0, len2, pos);
+            kani::assert(post::fate_ok(0, pos, n, p, a, d, o) && tok_visible_in(TW, 1, lenb2).0 == 0,
+                "move between vectors: target's old element w keeps Vec::insert's position");
+        }
+        // source element wb: moved into the target iff wb == j, else Vec::remove's fate in the source
+        let (nb_in_a, _) = tok_visible_in(TC, 0, len2);
+        if wb == j {
+            let (n, p, a, d, o) = obs(TC, 0, len2, index);
+            kani::assert(post::fate_ok(0, index, n, p, a, d, o) && tok_visible_in(TC, 1, lenb2).0 == 0,
+                "move between vectors: the moved value is visible exactly once, in the target at index");
+        } else {
+            let pos = if op == super::k2_remove::OP_REMOVE { post::remove_old_pos(len_b, j, wb) }
+                      else if op == super::k2_remove::OP_SWAP_REMOVE { post::swap_remove_old_pos(len_b, j, wb) }
+                      else { post::pop_old_pos(len_b, wb) };
+            let (n, p, a, d, o) = obs(TC, 1, lenb2, pos);
+            kani::assert(post::fate_ok(0, pos, n, p, a, d, o) && nb_in_a == 0,
+                "move between vectors: source's other elements have Vec::remove's fate");
+        }
+    }
+    kani::cover!(index < len && len == cap && j == 0 && len_b > 1, "COV move first of source in front of full target");
+    kani::cover!(true, "REACHED");
+    core::mem::forget(v);
+    core::mem::forget(other);
+}
+
+/// insert/push of a lazy clone of an element of another vector (user `Clone` runs inside the write)
+fn insert_lazy_clone<T: 'static>(push: bool) {
+    ghost_init();
+    let (len, cap) = sym_state();
+    let mut v = unsafe { mk_vec::<dyn Cloneable, T>(0, len, cap, false, true) };
+    reg(&v, 0);
+    let (len_b, cap_b) = sym_state();
+    kani::assume(len_b >= 1);
+    let other = unsafe { mk_vec::<dyn Cloneable, T>(1, len_b, cap_b, false, true) };
+    reg(&other, 1);
+    let esz = size_of::<T>();
+    // TW = the source element (slot j of `other`), TC = its clone; the target's old slot w is checked
+    // through a second run of this contract with the roles of the tokens swapped (insert_lazy_clone_tgt)
+    let j = witness_slot(TW, 1, len_b);
+    tok_init(TC, esz);
+    let index = if push { len } else { let i = any_narrow(); kani::assume(i <= len); i };
+
+    {
+        let e = other.at(j);
+        let lz = e.lazy_clone();
+        kani::assert(g().n_clone_calls == 0, "C09: creating a lazy clone clones nothing");
+        if push { v.push(lz) } else { v.insert(index, lz) }
+    }
+
+    let len2 = v.len();
+    kani::assert(len2 == post::insert_len(len) && len2 <= v.capacity(), "lazy clone insert: len' == len + 1 <= capacity'");
+    kani::assert(other.len() == len_b, "lazy clone insert: source vector untouched");
+    kani::assert(g().n_clone_calls == 1 && g().total_cloned == 1, "C09: consuming a lazy clone clones exactly once");
+    kani::assert(g().total_destroyed == 0 && g().out_count == 0 && g().in_count == 0, "lazy clone insert: nothing destroyed or moved");
+    if esz != 0 {
+        let (n, p, a, d, o) = obs(TW, 1, len_b, j);
+        kani::assert(post::fate_ok(0, j, n, p, a, d, o) && g().t[TW].cloned == 1, "C09: the source is cloned once and left unchanged");
+        let (n, p, a, d, o) = obs(TC, 0, len2, index);
+        kani::assert(post::fate_ok(0, index, n, p, a, d, o), "lazy clone insert: the clone is visible exactly once, at index");
+    }
+    kani::cover!(index < len && len == cap, "COV lazy clone in front at full capacity");
+    kani::cover!(true, "REACHED");
+    core::mem::forget(v);
+    core::mem::forget(other);
+}
+
+/// same operation, watching an old element `w` of the *target*: it must be out of sight while the
+/// user's `Clone` runs (panic-view invariant inside the clone call-out) and end where Vec puts it
+fn insert_lazy_clone_tgt<T: 'static>(push: bool) {
+    ghost_init();
+    let (len, cap) = sym_state();
+    kani::assume(len >= 1);
+    let mut v = unsafe { mk_vec::<dyn Cloneable, T>(0, len, cap, false, true) };
+    reg(&v, 0);
+    let (len_b, cap_b) = sym_state();
+    kani::assume(len_b >= 1);
+    let other = unsafe { mk_vec::<dyn Cloneable, T>(1, len_b, cap_b, false, true) };
+    reg(&other, 1);
+    let esz = size_of::<T>();
+    let w = witness_slot(TW, 0, len);
+    let j = any_narrow();
+    kani::assume(j < len_b);
+    let index = if push { len } else { let i = any_narrow(); kani::assume(i <= len); i };
+    {
+        let e = other.at(j);
+        if push { v.push(e.lazy_clone()) } else { v.insert(index, e.lazy_clone()) }
+    }
+    let len2 = v.len();
+    if esz != 0 {
+        let pos = post::insert_old_pos(len, index, w);
+        let (n, p, a, d, o) = obs(TW, 0, len2, pos);
+        kani::assert(post::fate_ok(0, pos, n, p, a, d, o), "lazy clone insert: target's old element w keeps Vec::insert's position");
+    }
+    kani::cover!(index < len && w >= index, "COV shifted witness");
+    kani::cover!(true, "REACHED");
+    core::mem::forget(v);
+    core::mem::forget(other);
+}
+
+fn mk_e1() -> E1 { E1([0]) }
+fn mk_e2() -> E2 { E2(0) }
+fn mk_e3() -> E3 { E3([0; 3]) }
+fn mk_e8() -> E8 { E8(0) }
+fn mk_e12() -> E12 { E12([0; 3]) }
+fn mk_e16() -> E16 { E16([0; 16]) }
+fn mk_e24() -> E24 { E24([0; 3]) }
+fn mk_e160() -> E160 { E160([0; 20]) }
+fn mk_z0() -> Z0 { Z0 }
+fn mk_d8() -> D8 { D8(0) }
+
+h!(insert_raw_z0, insert_owned::<Z0>(SRC_RAW, false, true, false, mk_z0));
+h!(insert_raw_e1, insert_owned::<E1>(SRC_RAW, false, true, false, mk_e1));
+h!(insert_raw_e2, insert_owned::<E2>(SRC_RAW, false, false, false, mk_e2));
+h!(insert_raw_e3, insert_owned::<E3>(SRC_RAW, false, true, false, mk_e3));
+h!(insert_raw_e8, insert_owned::<E8>(SRC_RAW, false, true, false, mk_e8));
+h!(insert_raw_e12, insert_owned::<E12>(SRC_RAW, false, true, false, mk_e12));
+h!(insert_raw_e16, insert_owned::<E16>(SRC_RAW, false, false, false, mk_e16));
+h!(insert_raw_e24, insert_owned::<E24>(SRC_RAW, false, true, false, mk_e24));
+h!(insert_raw_e160, insert_owned::<E160>(SRC_RAW, false, true, false, mk_e160));
+h!(insert_wrapper_e8, insert_owned::<E8>(SRC_WRAPPER, false, true, false, mk_e8));
+h!(insert_wrapper_e3, insert_owned::<E3>(SRC_WRAPPER, false, true, false, mk_e3));
+h!(insert_wrapper_e16, insert_owned::<E16>(SRC_WRAPPER, false, true, false, mk_e16));
+h!(insert_wrapper_e24, insert_owned::<E24>(SRC_WRAPPER, false, true, false, mk_e24));
+h!(insert_typed_e8, insert_owned::<E8>(SRC_TYPED, false, false, false, mk_e8));
+h!(insert_typed_d8, insert_owned::<D8>(SRC_TYPED, false, true, false, mk_d8));
+h!(insert_typed_e12, insert_owned::<E12>(SRC_TYPED, false, false, false, mk_e12));
+h!(insert_typed_z0, insert_owned::<Z0>(SRC_TYPED, false, false, false, mk_z0));
+h!(insert_raw_fixed_e8, insert_owned::<E8>(SRC_RAW, false, true, true, mk_e8));
+h!(insert_typed_fixed_e8, insert_owned::<E8>(SRC_TYPED, false, false, true, mk_e8));
+h!(push_raw_e8, insert_owned::<E8>(SRC_RAW, true, true, false, mk_e8));
+h!(push_raw_e3, insert_owned::<E3>(SRC_RAW, true, true, false, mk_e3));
+h!(push_raw_z0, insert_owned::<Z0>(SRC_RAW, true, true, false, mk_z0));
+h!(push_wrapper_e16, insert_owned::<E16>(SRC_WRAPPER, true, true, false, mk_e16));
+h!(push_typed_e8, insert_owned::<E8>(SRC_TYPED, true, false, false, mk_e8));
+h!(push_typed_e24, insert_owned::<E24>(SRC_TYPED, true, false, false, mk_e24));
+h!(push_raw_fixed_e8, insert_owned::<E8>(SRC_RAW, true, true, true, mk_e8));
+h!(insert_from_remove_e8, insert_from_other::<E8>(false, super::k2_remove::OP_REMOVE));
+h!(insert_from_swap_remove_e8, insert_from_other::<E8>(false, super::k2_remove::OP_SWAP_REMOVE));
+h!(push_from_pop_e8, insert_from_other::<E8>(true, super::k2_remove::OP_POP));
+h!(push_from_remove_e16, insert_from_other::<E16>(true, super::k2_remove::OP_REMOVE));
+h!(insert_lazy_clone_e8, insert_lazy_clone::<E8>(false));
+h!(push_lazy_clone_e8, insert_lazy_clone::<E8>(true));
+h!(insert_lazy_clone_tgt_e8, insert_lazy_clone_tgt::<E8>(false));
